@@ -99,6 +99,19 @@ def generate(rng, tier):
             cases.append({"lines": [f"ondemand {place} {G.hx(shift + d)} " + " ".join(p)], "cls": "ondemand/len%d" % min(len(p), 4), "nontrivial": len(p) >= 1})
             if rng.random() < 0.25:
                 cases.append({"lines": [f"pod {G.hx(shift + d)} " + " ".join(p)], "cls": "pod", "nontrivial": len(p) >= 1})
+    # strings with \" and backslash runs placed at every offset relative to the 64-byte skip blocks, inside containers that
+    # the lookup has to SKIP (earlier array element / value of a non-matching key), as values and as keys
+    for pad in (range(0, 140, 1) if not quick else list(range(0, 140, 3)) + [61, 62, 63, 64, 65, 125, 126, 127, 128, 129]):
+        x = b"x" * pad
+        for esc in (b'\\"', b'\\\\', b'\\\\\\"', b'\\n'):
+            for d, ps in ((b'[["' + x + esc + b']",1,2],3]', [["n1"], ["n2"], ["n0", "n1"], ["n0", "n0"]]),
+                          (b'{"a":["' + x + esc + b']",{"b":1}],"b":2}', [["k62"], ["k61", "n1", "k62"], ["k63"]]),
+                          (b'{"' + x + esc + b'}":{"z":[1]},"q":{"' + x + esc + b'":7}}', [["k71"], ["k71", "k" + (x + {b'\\"': b'"', b'\\\\': b'\\', b'\\\\\\"': b'\\"', b'\\n': b'\n'}[esc]).hex()]]),
+                          (b'[{"k":"' + x + esc + b'"},[' + b'"' + esc + x + b'"' + b'],' + b" " * (pad % 7) + b'{"t":true}]', [["n2", "k74"], ["n1", "n0"], ["n3"]])):
+                if quick and (pad % 2) and esc != b'\\"':
+                    continue
+                for p in ps:
+                    cases.append({"lines": [f"ondemand {rng.choice(['heap', 'page'])} {G.hx(d)} " + " ".join(p)], "cls": "escape-at-block-edge", "nontrivial": True})
     for d in docs[: (20 if quick else 800)]:
         if len(d) < 120:
             ps = paths_of(rng, d)
